@@ -5,8 +5,9 @@ set -u
 patch="$1"; shift
 cd /verif
 git -C /repo diff --quiet || { echo "/repo is not clean"; exit 2; }
-git -C /repo apply "$patch" || { echo "patch does not apply"; exit 2; }
-trap 'git -C /repo checkout -- . ; git -C /repo clean -fdq src; python3 /verif/tools/mkcopy.py >/dev/null' EXIT
+git -C /repo apply "$patch" 2>/dev/null || git -C /repo apply --3way "$patch" || { echo "patch does not apply"; exit 2; }
+grep -rl "^<<<<<<< " /repo/src >/dev/null 2>&1 && { echo "patch conflicts with the current HEAD"; git -C /repo reset -q --hard HEAD; exit 2; }
+trap 'git -C /repo reset -q --hard HEAD; git -C /repo clean -fdq src; python3 /verif/tools/mkcopy.py >/dev/null' EXIT
 for p in "$@"; do
   out=$(./check.sh "$p" quick 2>&1); rc=$?
   echo "[$p rc=$rc] $(echo "$out" | head -3 | cut -c1-260 | tr '\n' ' ')"
